@@ -219,7 +219,7 @@ func (g *tplGen) elem(d int, condKind string) string {
 		}
 	}
 	for k := r.n(3); k > 0 && r.p(50); k-- {
-		a := r.pick([]string{"class=\"c\"", "id=x", "hidden", "title='t'", "data-a=\"1\"", "href=\"/p?a=1&amp;b=2\"", "lang=en"})
+		a := r.pick([]string{"class=\"c\"", "id=x", "hidden", "title='t'", "data-a=\"1\"", "href=\"/p?a=1&amp;b=2\"", "lang=en", "href=/docs/", "data-p=a/"}) // (an unquoted value ending in '/' closes the tag only when it is written LAST)
 		n := strings.SplitN(a, "=", 2)[0]
 		dup := false
 		for _, b := range as {
@@ -237,6 +237,12 @@ func (g *tplGen) elem(d int, condKind string) string {
 		g.count("content_" + content)
 	}
 	r.shuffle(as)
+	// an unquoted value ending in '/' must not be written last: `<x a=b/>` is read as a self-closing tag
+	if n := len(as); n > 1 && strings.HasSuffix(as[n-1], "/") {
+		as[0], as[n-1] = as[n-1], as[0]
+	} else if n == 1 && strings.HasSuffix(as[0], "/") {
+		as = append(as, " id=x")
+	}
 	open := "<" + tag + strings.Join(as, "")
 	var out string
 	switch {
